@@ -98,6 +98,9 @@ func genC03(t *rapid.T) *Case {
 		if rapid.IntRange(0, 3).Draw(t, "other") == 0 {
 			sb.WriteString(` id="i1" rel="x"`)
 		}
+		if rapid.IntRange(0, 5).Draw(t, "selfClosing") == 0 {
+			sb.WriteString("/") // <img src="..."/>, <image src="..."/>: self-closing syntax
+		}
 		sb.WriteString(">x")
 		if !voidEls[pos[0]] {
 			sb.WriteString("</" + pos[0] + ">")
